@@ -44,7 +44,7 @@ def rand_row(rng, W, wide_ok, density):
             x += 1
     if rng.random() < 0.25:
         # trailing blanks: styled-invisible or styled-visible
-        st = rng.choice(STYLES_PLAIN + STYLES_VIS[:3])
+        st = rng.choice(STYLES_PLAIN + STYLES_VIS)
         for x2 in range(x, min(W, x + rng.randint(1, 4))):
             row[x2] = (" ", st)
     return row
@@ -88,6 +88,12 @@ def rand_screen(rng, W, H, wide_ok=True, prev=None):
             r = rng.random()
             if r < 0.4:
                 scr["rows"][y] = rand_row(rng, W, wide_ok, 0.9)
+            elif r < 0.55 and scr["rows"].get(y):
+                # append after the end of the row, leaving what is there unchanged
+                row = scr["rows"][y]
+                m = max(row)
+                for x in range(m + 1, min(W, m + 1 + rng.randint(1, 3))):
+                    row[x] = (rng.choice(NARROW + [" "]), rand_style(rng))
             elif r < 0.7 and scr["rows"].get(y):
                 row = scr["rows"][y]
                 x = rng.choice(sorted(row))
@@ -155,3 +161,39 @@ def rand_spec(rng, maxW, maxH, nops, wide_ok=True, transf_ok=False):
         ops.append(("render", cfg, done, W, H, scr))
         prev = None if done else scr
     return {"fs": fs, "cfgs": cfgs, "ops": ops}
+
+
+# every attribute on its own (and with an invisible companion) on blank cells
+BLANK_STYLES = ["strike", "underline", "blink", "reverse", "bg:#ff0000", "fg:#00ff00", "bold", "italic",
+                "hidden", "strike bold", "italic strike", "class:b", "class:c", "", "[transparent]"]
+
+
+def blank_run_specs(rng):
+    """Rows ending in (or containing) a run of blanks that carry one attribute,
+    then text appended after the unchanged blanks, then back: the states where
+    'does this blank count as styled' decides what is drawn."""
+    for st in BLANK_STYLES:
+        for k in (1, 2, 3):
+            for pre in ("", "ab"):
+                for fs in (False, True):
+                    n = len(pre)
+                    W = n + k + rng.choice([1, 2, 3])
+                    base = {x: (c, "") for x, c in enumerate(pre)}
+                    base.update({n + i: (" ", st) for i in range(k)})
+                    more = dict(base)
+                    more[n + k] = ("x", rng.choice(["", "bold", st]))
+                    other = dict(base)
+                    other[n] = ("y", st)
+
+                    def scr(row, h=1, extra=None):
+                        rows = {0: dict(row)}
+                        if extra is not None:
+                            rows[1] = dict(extra)
+                        return {"height": h, "show_cursor": True, "cursor": (rng.randrange(W), 0), "rows": rows, "zwe": {}}
+                    depth = rng.choice([1, 4, 8, 24])
+                    seqs = [[base, more, base], [more, base, more], [base, other, more], [{}, base, more]]
+                    for seq in seqs:
+                        yield {"fs": fs, "cfgs": [(1, depth, 0)],
+                               "ops": [("render", 0, False, W, 2, scr(r)) for r in seq]}
+                    yield {"fs": fs, "cfgs": [(1, depth, 0)],
+                           "ops": [("render", 0, False, W, 3, scr(base, 2, more)), ("render", 0, False, W, 3, scr(more, 2, base))]}
